@@ -178,6 +178,21 @@ def generate(rng, tier, seed):
                 i = c2.line("spec.tr31_build\t" + "\t".join([enc_b(kbpk), enc_header(h), "s:", "i:0", enc_b(key), enc_b(rb(rng, padlen)), "i:0"]))
                 c2.deferred = (kbpk, i, h, key)
                 yield c2
+        # pad blocks as another implementation may write them: any printable filler, the extended length form, lower-case id, extra size
+        for ksize in ksizes:
+            for fill in (ord("0"), ord("F"), ord(" "), ord("*"), ord("~"), ord("="), ord("z")):
+                for form in (0, 0, 1, 2):
+                    kbpk = rb(rng, ksize)
+                    blocks = rand_blocks(rng, rng.randrange(0, 3))
+                    h = make_header(rng, ver, blocks)
+                    key = rb(rng, rng.choice([0, 8, 16, 24]))
+                    padlen = (-(2 + len(key))) % bs
+                    pid_ = rng.choice(["PB", "PB", "pb", "Pb"])
+                    c = Case(f"{ver}:foreign-pad-block:spec-to-psec", {"fill": chr(fill), "form": form, "id": pid_})
+                    i = c.line("spec.tr31_build_fp\t" + "\t".join([enc_b(kbpk), enc_header(h), "s:", f"i:{rng.choice([0, 0, 1])}", f"i:{fill}", f"i:{form}", enc_s(pid_),
+                                                                 enc_b(key), enc_b(rb(rng, padlen)), f"i:{rng.choice([0, 1])}"]))
+                    c.deferred = (kbpk, i, h, key)
+                    yield c
         # many optional blocks (two-digit block counts 10..30) and very short keys (one cipher block of key data), both directions
         for nb in (9, 10, 11, 16, 30):
             kbpk = rb(rng, ksizes[0])
